@@ -1,5 +1,14 @@
 #!/bin/sh
 # usage: tools/scratch.sh <benign|seeded>/<id>  -> prints a scratch copy of /repo with the patch applied (caller removes it)
 d=$(mktemp -d /var/tmp/vs-XXXXXX); mkdir -p $d/src; cp -r /repo/src/pptx $d/src/; ln -s /repo/spec $d/spec
-(cd $d && patch -p1 -s -i /verif/$1/patch.diff) || exit 1
+/venv/bin/python - $d /verif/$1/patch.diff <<'PY' || exit 1
+import re,sys,subprocess,os
+d,p=sys.argv[1:3]
+parts=re.split(r'(?m)^(?=diff --git )', open(p).read())
+keep=[x for x in parts if not x.startswith('diff --git ') or re.match(r'diff --git a/src/pptx/', x)]
+open(d+'/.p.diff','w').write(''.join(keep))
+r=subprocess.run(['patch','-p1','-s','-i',d+'/.p.diff'],cwd=d)
+os.remove(d+'/.p.diff')
+sys.exit(r.returncode)
+PY
 echo $d
